@@ -58,6 +58,7 @@ type smtpBehaviour struct {
 	NoVisit     bool                   `json:"novisit"` // snapshot only the behaviour's own mailboxes (parallel sessions)
 	Group       string                 `json:"group"`
 	TLS         bool                   `json:"tls"`          // STARTTLS is configured (TLSEnabled with a throw-away certificate)
+	Pipeline    bool                   `json:"pipeline"`     // the client does not wait: DATA, the message and the line behind it go out in one write
 	FailMailbox string                 `json:"fail_mailbox"` // fault injection: the store refuses every message for this mailbox   // behaviours with the same non-empty group share one server and run concurrently
 }
 
@@ -451,6 +452,7 @@ func runSMTPSessionEmit(emit func(tr.Ev), flush func(), b smtpBehaviour, e *smtp
 	emit(cev)
 	closed := false
 	lastCode := 0
+	presentUntil := -1 // pipelining: steps up to this index have been written already
 	for i, st := range b.Steps {
 		ev := tr.Ev{"a": "cmd", "t": b.ID, "i": i}
 		for k, v := range st.Abs {
@@ -494,10 +496,31 @@ func runSMTPSessionEmit(emit func(tr.Ev), flush func(), b smtpBehaviour, e *smtp
 				break
 			}
 			data := stepBytes(st)
+			if b.Pipeline && presentUntil >= i {
+				data = nil // already written together with an earlier line: only the reply is read
+			} else if b.Pipeline && st.Abs["c"] == "data" {
+				// a client that does not wait for the 354 (nor for the answer to the end of the data): DATA, the whole
+				// message and the line behind it leave in ONE write
+				for j := i + 1; j < len(b.Steps) && j <= i+2; j++ {
+					if b.Steps[j].Kind == "connect" || b.Steps[j].Kind == "cut" {
+						break
+					}
+					data = append(data, stepBytes(b.Steps[j])...)
+					presentUntil = j
+				}
+				ev["ahead"] = true
+			}
 			_ = client.SetWriteDeadline(time.Now().Add(timeout))
 			// the server may answer before it has consumed everything (pipe): write in the background
 			werr := make(chan error, 1)
-			go func() { _, err := client.Write(data); werr <- err }()
+			go func() {
+				if data == nil {
+					werr <- nil
+					return
+				}
+				_, err := client.Write(data)
+				werr <- err
+			}()
 			rp := readReply(client, br, timeout)
 			select {
 			case <-werr:
